@@ -117,6 +117,10 @@ func runC17(c ClusterCase) (res common.Result) {
 		return
 	}
 	defer s.close()
+	return runC17WithSim(s, c)
+}
+
+func runC17WithSim(s *sim, c ClusterCase) (res common.Result) {
 	fail := func(f *common.Failure) common.Result {
 		res.Fail = f
 		return res
@@ -247,4 +251,38 @@ func runC17(c ClusterCase) (res common.Result) {
 
 func TestC17Detects(t *testing.T) {
 	common.Run(t, "C17", "C17Divergence", genC17, runC17)
+}
+
+// TestC20Verifier replays C17-style histories (clean prefix + one divergence)
+// and checks the verifier's five counters against the true totals on every
+// node, before every middleware restart and at the end (C20).
+func TestC20Verifier(t *testing.T) {
+	common.Run(t, "C20", "C20Verifier", genC17, func(c ClusterCase) (res common.Result) {
+		s, err := newSim(c)
+		if err != nil {
+			res.Fail = common.Failf("harness", "%v", err)
+			return
+		}
+		defer s.close()
+		// reuse the C17 scenario; its own verdict belongs to C17 and is ignored here
+		_ = runC17WithSim(s, c)
+		mism := uint64(0)
+		for _, n := range s.nodes {
+			n.Quiesce()
+			for _, r := range n.TakeReports() {
+				s.judge(n, r)
+			}
+			n.CheckCounters("at the end")
+			if n.CounterFail != "" {
+				res.Fail = common.Failf("verifier-counter", "%s", n.CounterFail)
+				return
+			}
+			mism += n.MismatchRead + n.MismatchWritten
+		}
+		res.NonTrivial = mism > 0
+		if mism > 0 {
+			res.Classes = append(res.Classes, "checksum-failure-counted")
+		}
+		return
+	})
 }
